@@ -33,7 +33,23 @@ type htask struct {
 	// Copies are performed by the task's first command (cp src dst, relative to the project),
 	// after its fail test and before its ok marker: a generated file another task may depend on.
 	Copies [][2]string `json:"copies,omitempty"`
+	Outs   []string    `json:"outs,omitempty"`    // declared outputs (literals or globs): no influence on whether the task is up to date
+	CmdTag string      `json:"cmd_tag,omitempty"` // appended to every command as " && : <tag>": the command text changes, the inputs do not
 }
+
+// declOf is the task's file-dependency declaration as written.
+func declOf(t *htask) string {
+	return "L:" + strings.Join(t.Lits, ",") + "|G:" + strings.Join(t.Globs, ",")
+}
+
+// which tasks C02 is demanded of in a judged run
+type c02mode int
+
+const (
+	c02None     c02mode = iota // nothing demanded (model update only)
+	c02All                     // every task
+	c02SameDecl                // the spokfile has been edited: only tasks whose declaration is the one of their last success
+)
 
 type hshape struct {
 	Name  string      `json:"name"`
@@ -70,6 +86,7 @@ var histShapes = []hshape{
 	{Name: "volatile-variable-in-command", Stamp: true, Tasks: []htask{{Name: "A", Lits: []string{"a.txt"}, NCmd: 1}, {Name: "B", Globs: []string{"*.txt"}, NCmd: 2}}, Files: []string{"a.txt"}},
 	{Name: "non-ascii-task-name", Tasks: []htask{{Name: "übersetzen", Lits: []string{"a.txt"}, NCmd: 1}, {Name: "B", Lits: []string{"a.txt"}, Deps: []string{"übersetzen"}, NCmd: 1}}, Files: []string{"a.txt"}},
 	{Name: "names-a-tool-might-reserve", Tasks: []htask{{Name: "last", Lits: []string{"a.txt"}, NCmd: 1}, {Name: "version", Lits: []string{"b.txt"}, Deps: []string{"last"}, NCmd: 1}}, Files: []string{"a.txt", "b.txt"}},
+	{Name: "declared-output-feeds-a-glob", Tasks: []htask{{Name: "A", Lits: []string{"a.txt"}, NCmd: 1, Copies: [][2]string{{"a.txt", "g.txt"}}, Outs: []string{"g.txt"}}, {Name: "B", Lits: []string{"b.txt"}, Globs: []string{"g*.txt"}, Deps: []string{"A"}, NCmd: 1}}, Files: []string{"a.txt", "b.txt", "g.txt"}},
 	{Name: "generated-input", Tasks: []htask{{Name: "A", Lits: []string{"a.txt"}, NCmd: 1, Copies: [][2]string{{"a.txt", "g.txt"}}}, {Name: "B", Lits: []string{"g.txt"}, Deps: []string{"A"}, NCmd: 1}}, Files: []string{"a.txt", "g.txt"}},
 	{Name: "chain-of-three", Tasks: []htask{{Name: "A", Lits: []string{"a.txt"}, NCmd: 1}, {Name: "B", Lits: []string{"b.txt"}, Deps: []string{"A"}, NCmd: 1}, {Name: "C", Deps: []string{"B"}, NCmd: 1}}, Files: []string{"a.txt", "b.txt"}},
 }
@@ -134,9 +151,18 @@ func (sb *sandbox) spokfileText(s hshape) string {
 		for _, g := range t.Globs {
 			deps = append(deps, `"`+g+`"`)
 		}
-		fmt.Fprintf(&b, "task %s(%s) {\n", t.Name, strings.Join(deps, ", "))
+		outs := ""
+		if len(t.Outs) == 1 {
+			outs = " -> \"" + t.Outs[0] + "\""
+		} else if len(t.Outs) > 1 {
+			outs = " -> (\"" + strings.Join(t.Outs, "\", \"") + "\")"
+		}
+		fmt.Fprintf(&b, "task %s(%s)%s {\n", t.Name, strings.Join(deps, ", "), outs)
 		for i := 0; i < t.NCmd; i++ {
 			work := ""
+			if t.CmdTag != "" {
+				work += " && : " + t.CmdTag
+			}
 			if i == 0 && s.Stamp {
 				work += " && test -n '{{.STAMP}}'"
 			}
@@ -165,10 +191,11 @@ type hstate struct {
 	Modes    map[string]string `json:"modes,omitempty"`  // rel path -> "755" for files made executable (default 644)
 	Extra    map[string]string `json:"extra,omitempty"`  // any other file found in the project (e.g. further files in .spok): carried along
 	Other    string            `json:"other,omitempty"`  // the spokfile changed / not a regular file: never expected
+	Decl     map[string]string `json:"decl,omitempty"`   // task -> its file-dependency declaration at its last success (histories that edit the spokfile)
 }
 
 func newState() hstate {
-	return hstate{Files: map[string]string{}, Model: map[string]string{}, LastFail: map[string]string{}, Forced: map[string]string{}, Extra: map[string]string{}, Modes: map[string]string{}}
+	return hstate{Files: map[string]string{}, Model: map[string]string{}, LastFail: map[string]string{}, Forced: map[string]string{}, Extra: map[string]string{}, Modes: map[string]string{}, Decl: map[string]string{}}
 }
 
 func (s hstate) clone() hstate {
@@ -190,6 +217,9 @@ func (s hstate) clone() hstate {
 	}
 	for k, v := range s.Modes {
 		n.Modes[k] = v
+	}
+	for k, v := range s.Decl {
+		n.Decl[k] = v
 	}
 	if s.Cache != nil {
 		c := *s.Cache
@@ -657,7 +687,7 @@ type hverdict struct {
 // judgeRun checks the invocation o, executed in state pre (files and model before
 // the invocation), and updates model/lastFail in st. strictC02 is false after a
 // crash (C10): then only the C01 clause is demanded.
-func judgeRun(s hshape, pre hstate, o hobs, st *hstate, strictC02 bool) hverdict {
+func judgeRun(s hshape, pre hstate, o hobs, st *hstate, c02 c02mode) hverdict {
 	var v hverdict
 	bad := func(prop, clause, format string, args ...any) {
 		v.Violations = append(v.Violations, core.Violation{Property: prop, Clause: clause, Detail: fmt.Sprintf(format, args...)})
@@ -729,6 +759,7 @@ func judgeRun(s hshape, pre hstate, o hobs, st *hstate, strictC02 bool) hverdict
 			v.ForcedUp = true
 		}
 		// C02: unchanged since the last success => skipped; tasks without files always run
+		strictC02 := c02 == c02All || (c02 == c02SameDecl && pre.Decl[name] == declOf(t))
 		if strictC02 && !o.Op.Force && reached {
 			hasFiles := snap != noFiles
 			// undecided corner (C02 vs C09): since its last success the task has failed on exactly
@@ -761,6 +792,9 @@ func judgeRun(s hshape, pre hstate, o hobs, st *hstate, strictC02 bool) hverdict
 			if o.succeeded(t) {
 				st.Model[name] = snap
 				st.LastFail[name] = ""
+				if st.Decl != nil {
+					st.Decl[name] = declOf(t)
+				}
 			} else if last != "" && snap == last {
 				st.LastFail[name] = "failed on the inputs of its last success"
 			}
